@@ -111,7 +111,11 @@ def freeze(c):
 
 
 def gen_cases(run, n):
-    return [freeze(c) for c in gen_cases0(run, n)]
+    cases = [freeze(c) for c in gen_cases0(run, n)]
+    if run.tier != "quick" and not getattr(run, "_exhaustive_done", False):
+        run._exhaustive_done = True
+        cases = exhaustive_cases(run) + cases
+    return cases
 
 
 def gen_cases0(run, n):
@@ -124,6 +128,40 @@ def gen_cases0(run, n):
         q2 = query(rng, 1)
         cases.append({"op": "match", "kind": "and", "ev": event(rng), "qs": [q, q2, "(%s) AND (%s)" % (q, q2)]})
     return cases
+
+
+EX_FIELDS = ["@a", "@b.c", "tag1", "host", "message", None, "tags"]
+
+
+def exhaustive_leaves():
+    out = []
+    for f in EX_FIELDS:
+        p = fld(f)
+        out += [p + "foo", p + "5", p + '"foo bar"', p + "fo*", p + "*oo", p + ">5", p + "<=foo", p + "[1 TO 10]",
+                p + "{a TO g}", "_exists_:" + (f if f is not None else "_default_")]
+    return out
+
+
+def exhaustive_cases(run):
+    """thorough tier: every query of depth <= 2 over the small vocabulary (leaf, NOT leaf, leaf AND/OR leaf), each on
+    two events of a fixed pool"""
+    rng = run.rng
+    pool = [event(rng) for _ in range(16)]
+    L = exhaustive_leaves()
+    cases = []
+    k = 0
+    for q in L:
+        for _ in range(2):
+            cases.append({"op": "match", "kind": "not", "ev": pool[k % len(pool)], "qs": [q, "NOT (%s)" % q]})
+            k += 1
+    for q1 in L:
+        for q2 in L:
+            for kind, j in (("and", " AND "), ("or", " OR ")):
+                for _ in range(2):
+                    cases.append({"op": "match", "kind": kind, "ev": pool[k % len(pool)],
+                                  "qs": [q1, q2, "(%s)%s(%s)" % (q1, j, q2)]})
+                    k += 1
+    return [freeze(c) for c in cases]
 
 
 def coq_mr(m):
@@ -197,6 +235,6 @@ def known_matcher(entry, case, out):
 
 def main(run, args):
     import checklib
-    n = (args.cases or 2500) if run.tier == "quick" else 40000
+    n = (args.cases or 2000) if run.tier == "quick" else 30000
     return checklib.standard(run, ID, THEOREMS, IMPORTS, "dd", gen_cases, to_coq, n, nontrivial=nontrivial,
                              replay=args.replay, known_matcher=known_matcher)
